@@ -160,6 +160,13 @@ def scenarios(ctx):
             pos_x = perm.index(n)
             order = [x for x in perm if x != n]
             yield dict(world=w, id_attr=attr, sig_order=order, extra=[dict(extra1[0], pos=pos_x, id=(9999 if attr == 'ncbi_id' else 'unrelated_X'))], probe=True)
+    # an unrelated signature whose id has a genome id as proper prefix and is longer than every genome id
+    for attr in ('key', 'genbank_acc', 'refseq_acc'):
+        gid = w['genomes'][2][attr]
+        longer = str(gid) + '0'
+        yield dict(world=w, id_attr=attr, sig_order=[0, 1, 2, 3], extra=[dict(extra1[0], pos=1, id=longer)], probe=True, why='prefix-extended unrelated id, own signature present')
+        yield dict(world=w, id_attr=attr, sig_order=[0, 1, 3], extra=[dict(extra1[0], pos=2, id=longer)], why='prefix-extended unrelated id, own signature MISSING: must fail')
+        yield dict(world=w, id_attr=attr, sig_order=[3, 2, 1, 0], extra=[dict(extra1[0], pos=0, id=str(gid)[:-1])], probe=True, why='unrelated id that is a proper prefix of a genome id')
     # completeness violations
     yield dict(world=w, id_attr='key', sig_order=[0, 1, 2], why='genome without signature')
     yield dict(world=w, id_attr='key', sig_order=[3, 1], why='two genomes without signature')
@@ -233,6 +240,4 @@ def run(ctx):
                         'the signature file\'s id_attr metadata is rewritten with h5py to produce the none / junk / wrong-attribute scenarios']
 
 
-def replay(ctx, scen):
-    print('C04 scenarios are rebuilt by the check itself; run ./check C04 --tier quick (scenario is in the replay file)')
-    return True
+replay = core.RERUN
